@@ -23,6 +23,10 @@ CLAIMED = {
          "Necessary structural conditions only: success only after Commit of a single upsert on the handle's transaction; no autocommit mutation. SQLite's crash atomicity is trusted; crash points are not explored.", "5/C06"),
  "C07": ("error-discipline analysis over path summaries (TOFU only on NotFound, Close on all exits, no dropped error)",
          "Decides the error discipline of Update, both stores and the adapter on every path. Does not exercise database/sql's pool under faults.", "5/C07"),
+ "C08": ("typestate rule (stored value must be re-openable) + honest-step completeness over order classes of the path summaries",
+         "Two one-step necessary conditions of the liveness claim (level other): nothing stored can be unreadable by the witness's own reader; no ordering class of (stored, submitted) size is a dead end for an honest request. K1 (stored size 0 < submitted) is a known finding. Histories are not explored.", "5/C08"),
+ "C09": ("exhaustive decision table over a finite order abstraction (weak orderings x predicate valuations) of the path summaries",
+         "Decides that every abstract cell (known, signature, stored, ordering of 0/old/stored/submitted sizes, rootEq, proofOK, proofEmpty) is answered by exactly one fault-free path with the outcome the first-match table prescribes; checks the abstraction's soundness premise (sizes only compared). The proof verdict is an uninterpreted boolean tied to VerifyConsistency's contract.", "5/C09"),
  "C20": ("path-sensitive effect summaries: outcome-to-counter table over all paths of Update",
          "Decides exactly-once increments per outcome with counters identified by metric name, label provenance, single assignment in Once.Do, constructors initialise metrics.", "5/C20"),
 }
